@@ -8,6 +8,9 @@
 //
 //	file <path relative to repo>             statement points + sync/pipe/go rewriting
 //	order <relative path> <expr as printed>  range over that map expression becomes an owned choice
+//	sortcall <relative path> <fun as printed> calls of that function (returning []string in an order the callee
+//	                                         takes from a map, e.g. go-openapi/analysis' media type lists) are wrapped
+//	                                         in verifrt.SortedStrings: the order is owned, fixed to sorted
 //	rtonly                                   (no files) only make the verifrt package available
 //
 // What it does per listed file: (1) verifrt.P("file:line") before every statement
@@ -38,6 +41,7 @@ import (
 	"go/types"
 	"os"
 	"path/filepath"
+	"reflect"
 	"strings"
 )
 
@@ -64,6 +68,7 @@ func main() {
 	}
 	var files []string
 	orders := map[string][]string{}
+	sortcalls := map[string][]string{}
 	cf, err := os.Open(*conf)
 	if err != nil {
 		die("%v", err)
@@ -80,6 +85,8 @@ func main() {
 			files = append(files, f[1])
 		case "order":
 			orders[f[1]] = append(orders[f[1]], f[2])
+		case "sortcall":
+			sortcalls[f[1]] = append(sortcalls[f[1]], f[2])
 		case "rtonly":
 		default:
 			die("bad conf line %q", ln)
@@ -107,6 +114,7 @@ func main() {
 			delete(orders, rel)
 			continue
 		}
+		curSortCalls = sortcalls[rel]
 		nb, n, err := rewrite(rel, b, orders[rel], nil)
 		if me, ok := err.(missingRange); ok {
 			fmt.Fprintf(os.Stderr, "instr: note: %s: %v; owning every map range of the file by type instead\n", rel, me)
@@ -251,6 +259,34 @@ func rewrite(rel string, src []byte, orders []string, at map[string]bool) ([]byt
 			}
 		}
 	}
+	// pass 0: calls whose []string result order is owned
+	if len(curSortCalls) > 0 {
+		want := map[string]bool{}
+		for _, c := range curSortCalls {
+			want[c] = true
+		}
+		found := map[string]bool{}
+		done := map[*ast.CallExpr]bool{}
+		replaceExprs(f, func(e ast.Expr) ast.Expr {
+			c, ok := e.(*ast.CallExpr)
+			if !ok || done[c] {
+				return e
+			}
+			fn := exprString(fset, c.Fun)
+			if !want[fn] {
+				return e
+			}
+			done[c] = true
+			found[fn] = true
+			r.usedRT = true
+			return &ast.CallExpr{Fun: &ast.SelectorExpr{X: ast.NewIdent("verifrt"), Sel: ast.NewIdent("SortedStrings")}, Args: []ast.Expr{c}}
+		})
+		for c := range want {
+			if !found[c] {
+				fmt.Fprintf(os.Stderr, "instr: note: %s: no call of %s found; its result order is not owned\n", rel, c)
+			}
+		}
+	}
 	syncLeft, ioLeft := false, false
 	// pass 1: selectors, go statements, map ranges
 	ast.Inspect(f, func(n ast.Node) bool {
@@ -303,6 +339,44 @@ func rewrite(rel string, src []byte, orders []string, at map[string]bool) ([]byt
 		return nil, 0, err
 	}
 	return out.Bytes(), r.points, nil
+}
+
+var curSortCalls []string
+
+var exprType = reflect.TypeOf((*ast.Expr)(nil)).Elem()
+
+// replaceExprs applies fn to every expression-typed field (and element of expression slices) below root,
+// children first, and stores what fn returns.
+func replaceExprs(root ast.Node, fn func(ast.Expr) ast.Expr) {
+	ast.Inspect(root, func(n ast.Node) bool {
+		if n == nil {
+			return true
+		}
+		v := reflect.ValueOf(n)
+		if v.Kind() != reflect.Ptr || v.IsNil() || v.Elem().Kind() != reflect.Struct {
+			return true
+		}
+		sv := v.Elem()
+		for i := 0; i < sv.NumField(); i++ {
+			fv := sv.Field(i)
+			switch {
+			case fv.Type() == exprType && !fv.IsNil() && fv.CanSet():
+				if ne := fn(fv.Interface().(ast.Expr)); ne != nil {
+					fv.Set(reflect.ValueOf(ne))
+				}
+			case fv.Kind() == reflect.Slice && fv.Type().Elem() == exprType:
+				for j := 0; j < fv.Len(); j++ {
+					ev := fv.Index(j)
+					if !ev.IsNil() {
+						if ne := fn(ev.Interface().(ast.Expr)); ne != nil {
+							ev.Set(reflect.ValueOf(ne))
+						}
+					}
+				}
+			}
+		}
+		return true
+	})
 }
 
 func addImport(f *ast.File, path string) {
